@@ -33,7 +33,7 @@ type C03Case struct {
 }
 
 func genC03(t *rapid.T) *C03Case {
-	kinds := []string{"Pod", "Pod", "Pod", "Owned:ReplicaSet", "Deployment", "StatefulSet"}
+	kinds := []string{"Pod", "Pod", "Pod", "Owned:ReplicaSet", "Owned2:ReplicaSet", "Deployment", "StatefulSet"}
 	w := GenWorld(t, GenCfg{Admin: true, NoNamedRisk: true, Kinds: kinds, OmitNs: rapid.IntRange(0, 4).Draw(t, "omitns") == 0})
 	c := &C03Case{W: w}
 	n := rapid.IntRange(0, 4).Draw(t, "ncli")
@@ -57,7 +57,7 @@ func evalPodNames(w *Workload) []string {
 	switch {
 	case w.Kind == "Pod":
 		return []string{w.Ns + "/" + w.Name}
-	case strings.HasPrefix(w.Kind, "Owned:"):
+	case isOwned(w.Kind):
 		n := w.Replicas
 		if n < 1 {
 			n = 1
@@ -242,7 +242,7 @@ func checkC03(c *C03Case, st *VStats) *VFailure {
 		var cands []cand
 		for i := range w.Workloads {
 			wl := &w.Workloads[i]
-			if wl.Kind == "Pod" || strings.HasPrefix(wl.Kind, "Owned:") {
+			if wl.Kind == "Pod" || isOwned(wl.Kind) {
 				cands = append(cands, cand{evalPodNames(wl)[0], wl})
 			}
 		}
